@@ -206,6 +206,12 @@ class HierarchicalCache:
 
     def __insert_node(self, node: Node, path: str):
         parent_path, name = self._split(path)
+        # evict whatever holds this path or this oid BEFORE resolving the parent: the previous owner of the oid may be an
+        # ancestor of the new node, and deleting it afterwards would detach the parent we are about to insert under
+        self.delete(path=path)
+        if node.oid:
+            self.delete(oid=node.oid)
+
         parent_node = self._get_node(path=parent_path)
         if parent_node is None or parent_node.type == FILE:
             parent_node = self._mkdir(parent_path, None)
@@ -214,10 +220,6 @@ class HierarchicalCache:
         # note: the type of parent is now ProxyType, not Node, because of the weakref.proxy()
         assert parent_node is not node
         node.wr_parent = weakref.ref(parent_node)
-
-        self.delete(path=path)
-        if node.oid:
-            self.delete(oid=node.oid)
 
         parent_node.add_child(node)
 
